@@ -1498,6 +1498,19 @@ def run(ctx, model_ok=True):
     check_seed_pairs(ctx, rep)
     for _ in range(150 if quick else 4000):
         check_history(ctx, rep, gen_history(rng), int(rng.integers(2 ** 31)), model_ok)
+    # ensembles whose average state has a REPEATED eigenvalue in a basis that is not axis-aligned (orthonormal bases from rational unitaries with
+    # equal priors on two or all members; the rotated trine): a normaliser built from non-orthogonal eigenvectors shows here
+    drng = rng.spawn(1)[0]
+    for d, probs in ((2, [0.5, 0.5]), (3, [0.375, 0.3125, 0.3125]), (3, [1 / 3] * 3), (4, [0.25] * 4), (4, [0.375, 0.125, 0.25, 0.25])):
+        U = qgen.cayley_unitary(drng, d, True)
+        vecs = [U[:, i].copy() for i in range(d)]
+        rhos = [np.outer(v, np.conj(v)) for v in vecs]
+        lam = float(np.linalg.eigvalsh(sum(p * r for p, r in zip(probs, rhos))).min())
+        check_pgm(ctx, rep, (d, vecs, rhos, list(probs), "vec1d", True, lam), True, model_ok)
+    cth, sth = 4 / 5, 3 / 5        # the trine rotated by a Pythagorean angle, uniform prior: average state 1/2 exactly
+    rot = np.array([[cth, -sth], [sth, cth]])
+    tri = [rot @ np.array([np.cos(2 * np.pi * k / 3), np.sin(2 * np.pi * k / 3)]) for k in range(3)]
+    check_pgm(ctx, rep, (2, tri, [np.outer(v, v) for v in tri], [1 / 3] * 3, "vec1d", False, 0.5), True, model_ok)
     for i in range(40 if quick else 800):
         inst = gen_ensemble(rng, True)
         if inst is not None:
